@@ -24,6 +24,10 @@ EXPLANATION = (
     "object (a default is created once and shared by all instances built without that argument).  Does not decide that the aggregate is numerically the "
     "documented one.")
 RULES = {
+    "C09-j": "COMPONENT-WISE: Vectorize.compute combines the results of its inner accumulators with zip_longest (all of them, padded), "
+             "never with a truncating zip",
+    "C09-k": "NO LOST COUNT: a generator method of an accumulator never overwrites a field with a value computed from a read of that "
+             "field made before a yield (fills that happen while the generator is suspended would be lost)",
     "C09-i": "GUARD: compute() yields nothing under pass_on_empty only where the fill counter was seen to be zero",
     "C09-a": "AGREE: fields written while filling/computing (minus derived ones) are re-initialised by reset",
     "C09-b": "AGREE: reset assigns what __init__ assigns with parameters at their defaults",
@@ -741,7 +745,87 @@ def check_empty_means_empty(ctx):
     ctx.instances_floor("C09-i", n, 2, "silent pass_on_empty exits of compute()")
 
 
+def check_vectorize_combine(ctx):
+    """C09-j.  Vectorize yields the component-wise result of its inner accumulators: every result of every component, shorter
+    components padded (documented).  zip() would silently stop at the shortest component."""
+    fn = ctx.tree.func("lena.math.elements", "Vectorize.compute")
+    combos = []
+    for c in A.walk_local(fn):
+        if isinstance(c, ast.Call) and any(isinstance(x, ast.Call) and isinstance(x.func, ast.Attribute) and x.func.attr == "compute"
+                                           for a in c.args for x in ast.walk(a)):
+            canon = ctx.res.call_canon(c) or ""
+            if canon in ("builtins.zip", "builtins.map") or canon.startswith("itertools."):
+                combos.append((c, canon))
+    if not ctx.require(combos, "C09-j", fn, "Vectorize.compute: the call that combines the components' compute() results was not found"):
+        return
+    for c, canon in combos:
+        ctx.check("C09-j", canon in ("itertools.zip_longest", "itertools.izip_longest"), c, "Vectorize.compute combines the results of its "
+                  "components with `%s` (%s): it stops at the shortest component, so results of accumulators that yield more values "
+                  "than their neighbours are silently dropped instead of being padded with None as documented" % (A.short(c, 60), canon),
+                  detail="components combined with zip_longest", construct="vectorize-combine")
+
+
+def check_no_lost_count(ctx):
+    """C09-k.  Count.run documents that it does not overwrite the count field, in case of a simultaneous filling in another place:
+    run is a generator, and between two of its yields the same element may be filled (or run) elsewhere.  A field of the
+    element that is assigned, after a yield, a value computed from a read of the same field made before that yield loses every
+    update made in between.  (`self.x += local` reads at the time of the write and is fine.)"""
+    n = 0
+    bad = 0
+    for modname, cname in ACCUMULATOR_RUNS:
+        cls = ctx.tree.cls(modname, cname)
+        for name, fn in sorted(methods(cls).items()):
+            if not A.is_generator(fn):
+                continue
+            for p in P.paths_of(fn):
+                n += 1
+                ys = [i for i, _ in p.yields()]
+                if not ys:
+                    continue
+                taint = {}       # local -> (field, event index of the read)
+                for i, e in enumerate(p.ev):
+                    if e[0] != "stmt":
+                        continue
+                    st = e[1]
+                    if isinstance(st, (ast.Assign, ast.AugAssign)):
+                        tg = st.targets if isinstance(st, ast.Assign) else [st.target]
+                        reads = [(x.attr, i) for x in ast.walk(st.value) if A.is_self_attr(x) and isinstance(x.ctx, ast.Load)]
+                        via = [taint[x.id] for x in ast.walk(st.value) if isinstance(x, ast.Name) and x.id in taint]
+                        for t in tg:
+                            if isinstance(t, ast.Name):
+                                src = reads + via
+                                if isinstance(st, ast.AugAssign) and t.id in taint:
+                                    src = src + [taint[t.id]]
+                                if src:
+                                    taint[t.id] = min(src, key=lambda z: z[1])
+                                elif isinstance(st, ast.Assign):
+                                    taint.pop(t.id, None)
+                            elif A.is_self_attr(t) and isinstance(st, ast.Assign):
+                                for fld, at in via:
+                                    if fld == t.attr and any(at < y < i for y in ys):
+                                        key = (A.qualname(fn), fld)
+                                        if key not in SEEN_LOST:
+                                            SEEN_LOST.add(key)
+                                            bad += 1
+                                            ctx.violation("C09-k", st, "%s.%s assigns `%s` after a yield from a value that goes back to a read "
+                                                          "of self.%s made before that yield [%s]: whatever was added to the field while the "
+                                                          "generator was suspended (a fill of the same element in another place, a second "
+                                                          "run) is overwritten, so the element no longer yields the number of values it has "
+                                                          "seen" % (cname, name, A.short(st, 50), fld, p.describe(3)),
+                                                          construct="stale-overwrite:%s.%s:%s" % (cname, name, fld), path=p)
+    SEEN_LOST.clear()
+    ctx.instances_floor("C09-k", n, 3, "paths of generator methods of the accumulators that can also be run")
+    if not bad:
+        ctx.ok("C09-k", ctx.tree.func("lena.flow.elements", "Count.run"), "%d paths: no field overwritten from a read older than a yield" % n)
+
+
+ACCUMULATOR_RUNS = (("lena.flow.elements", "Count"),)
+SEEN_LOST = set()
+
+
 def check(ctx):
+    check_vectorize_combine(ctx)
+    check_no_lost_count(ctx)
     check_empty_means_empty(ctx)
     check_reset(ctx)
     check_shared_defaults(ctx)
@@ -751,6 +835,10 @@ def check(ctx):
 
 
 VARIANTS = [
+    M("vectorize-zip", "lena/math/elements.py", "        it = _zip_longest(*(seq.compute() for seq in self._seqs))", "        it = zip(*(seq.compute() for seq in self._seqs))", ["C09-j"]),
+    V("mutant", "count-run-snapshot", None, None, None, ["C09-k"], edits=[
+        ("lena/flow/elements.py", "        count = 1\n        for val in flow:", "        count = self.count + 1\n        for val in flow:", 0),
+        ("lena/flow/elements.py", "        self.count += count\n", "        self.count = count\n", 0)]),
     M("vmc-empty-includes-one", "lena/math/elements.py", "        if not self._count:\n            if self._pass_on_empty:\n                return\n            raise LenaZeroDivisionError(\n                \"can't calculate average. No values were filled\"",
       "        if self._count < 2:\n            if self._pass_on_empty:\n                return\n            raise LenaZeroDivisionError(\n                \"can't calculate average. No values were filled\"", ["C09-i"]),
     M("histogram-template-not-copied", "lena/structures/histogram.py", "        self._initial_bins = copy.deepcopy(bins)", "        self._initial_bins = bins", ["C09-g"]),
